@@ -213,7 +213,8 @@ let handle = function
         | "tn" -> (match n_ty pn with TArr -> decode_ops_exact (n_ch pn) | _ -> Inl RcPatchInvalid)
         | _ -> (match n_ty pn with TArr -> create_patch pn | _ -> Inl RcInvArgs)) in
     (match ops with
-     | Inl e -> "rc=" ^ rcname e
+     | Inl e -> if mode = "tn" then "rc=" ^ rcname e     (* the harness' own decoding: no call is made *)
+       else Printf.sprintf "rc=%s own=%s dup=0 par=ok" (rcname e) (String.concat "," (List.map (fun z -> "d" ^ string_of_z z) (i_ids idoc)))
      | Inr raw ->
        (match raw, parse_ops raw with
         | [], _ -> "rc=ok own=" ^ String.concat "," (List.map (fun z -> "d" ^ string_of_z z) (i_ids idoc)) ^ " dup=0 par=ok"
